@@ -64,6 +64,10 @@ static std::string check_opt(const Opt &o, const Model &m, const UserMaps &u, co
   if (!bits_equal(c1, c2) || g1.size() != g2.size() || !bits_equal(g1.data(), g2.data(), g1.size())) return fmt("%s: evaluate() differs from a freshly configured equivalent optimizer (cost %.17g vs %.17g)", name, c1, c2);
   // decode per the model: durations = toTime(x_i), optimised waypoints = toPhysical(slice), flagged blocks = slices
   const VTimeMap &tm = tm_of(u, m.tm);
+  // the initial guess decodes back to the reference durations whichever overload stored them (seeded change C09-m9: first duration of the
+  // time-point overload taken as t[1] instead of t[1] - t[0])
+  { Eigen::VectorXd x0 = o.generateInitialGuess(); if (x0.size() != L.total) return fmt("%s: generateInitialGuess() has %ld entries, layout model %d", name, (long)x0.size(), L.total);
+    for (int i = 0; i < p.N; ++i) { const double Ti = tm.prm[0] + x0(i) * x0(i); if (!(std::fabs(Ti - p.T[i]) <= 1e-12 * p.T[i])) return fmt("%s: the initial guess decodes duration %d to %.17g, the reference is %.17g", name, i, Ti, p.T[i]); } }
   for (int i = 0; i < p.N; ++i) if (w1.spline.getTimeSegments()[i] != tm.prm[0] + x(i) * x(i)) return fmt("%s: duration %d is not toTime(x_%d) of the active time map", name, i, i);
   for (size_t q = 0; q < L.pt_index.size(); ++q) { Eigen::VectorXd pp = sm.toPhysical(x.segment(L.pt_off[q], L.pt_dof[q]), L.pt_index[q]); for (int d = 0; d < D; ++d) if (w1.spline.getSpacePoints()(L.pt_index[q], d) != pp(d)) return fmt("%s: waypoint %d is not the model's slice of x through the active spatial map", name, L.pt_index[q]); }
   for (int i = 0; i <= p.N; ++i) { bool opt = i == 0 ? (m.mask & 1) : i == p.N ? (m.mask & 16) : true; if (!opt) for (int d = 0; d < D; ++d) if (w1.spline.getSpacePoints()(i, d) != p.P(i, d)) return fmt("%s: unflagged waypoint %d moved", name, i); }
